@@ -1,5 +1,5 @@
 """C03 - runs are reproducible and unaffected by where they are stopped"""
-from . import kernel, whomay, nondet
+from . import kernel, whomay, nondet, guards
 
 def check(ctx):
     kernel.run_tables(ctx, 'C03', [
@@ -7,6 +7,8 @@ def check(ctx):
     ])
     nondet.sources(ctx, 'C03')
     whomay.schedule_delay_exact(ctx, 'C03')
+    guards.nan_refused(ctx, 'C03', [('Environment', 'run', 'until')],
+                       'a NaN stop time puts an unordered key on the agenda: run() returns after an arbitrary prefix of the schedule')
     return ('Static: Environment.run path table compared with the reference (numeric until refused when at <= now, '
             'fresh sentinel scheduled URGENT at at-now, stop callback only on that private sentinel; event until: value '
             'at once when processed, otherwise polled after each step so that every waiter is resumed before the stop); '
